@@ -49,7 +49,31 @@ def sigfn(o, i, ev, v):
     s.update(field_info(i, ev, v))
     if s["kind"] == "C03:construction-refused":
         s["refusal_due_to_tiny_scale"] = refusal_probe(i)
+    if s["kind"] == "C03:parser-reported-value-refused":
+        s["refusal_due_to_float_base_of_hp_pair"] = hp_probe(i)
     return s
+
+
+def hp_probe(i):
+    """is the refusal explained by this alone: the parser reports the UNSCALED integer base attribute of a high-precision pair
+    (ecefX + _HPecefX ...) as a float?  (re-construct with exactly those attributes turned back into integers: must be accepted; what is then built is judged by the
+    other clauses when it comes about through other routes)"""
+    lay = i["lay"]
+    bases = {e["n"][3:] for e in lay["lay"] if e["k"] == "f" and e["n"].startswith("_HP")}
+    plain = {e["n"] for e in lay["lay"] if e["k"] == "f" and e["n"] in bases and e["sc"] == 0 and e["t"][:1] in "IU"}
+    if not plain:
+        return 0
+    P0 = bytes.fromhex(i["P0"])
+    pbf = 1 if lay["pbf"] else 0
+    msg0, pre, _ = walk.parse_payload(lay["m"], lay["cls"], lay["id"], pbf, P0)
+    if msg0 is None:
+        return 0
+    kw = {k: v for k, v in vars(msg0).items() if not k.startswith("_")}
+    for n in plain:
+        if isinstance(kw.get(n), float) and kw[n] == int(kw[n]):
+            kw[n] = int(kw[n])
+    msg, out = build.construct(lay["m"], lay["cls"], lay["id"], pbf, kw)
+    return 1 if out == "msg" and len(msg.payload or b"") == len(P0) else 0
 
 
 def refusal_probe(i):
@@ -155,6 +179,13 @@ def run(ctx):
             yield ("c03", {"_k": "sub:%d:%s" % (li, P0.hex()[:48]), "lay": l, "P0": P0.hex(), "only": only})
 
     run_batch(ctx, MODULE, CFG, gen(), build.OBSERVERS, sigfn, negfn, chunk=5000)
+
+    # a sample of the same cases in child interpreters started with -O / -OO, another hash seed, time zone and locale variables
+    from . import run_opt
+
+    _pool = [i for o, i in gen() if o == "c03"]
+    ctx.rng.shuffle(_pool)
+    run_opt(ctx, MODULE, CFG, "build:c03", _pool[: (3000 if ctx.thorough else 500)], sigfn)
     run_batch(ctx, MODULE, CFG, sweep_cases(ctx, lays), build.OBSERVERS, sigfn, negfn, chunk=20000)
     # (iv) the same round trips right after a hostile history in the same interpreter (a construction refused inside a repeating
     # group, a parse failing half-way through a group, the message in another mode): what is built must not depend on it
